@@ -219,7 +219,7 @@ func (r *Report) HistN(key string, n int) {
 
 func (r *Report) Sample(s any) {
 	r.mu.Lock()
-	if len(r.Samples) < 12 {
+	if len(r.Samples) < 100 {
 		r.Samples = append(r.Samples, s)
 	}
 	r.mu.Unlock()
